@@ -221,7 +221,14 @@ func EncodeWriter(w io.Writer, privKey crypto.PrivKey, token Tokener, encFn code
 		return err
 	}
 
-	return ipld.EncodeStreaming(w, node, encFn)
+	ew := NewErrWriter(w)
+
+	if err := ipld.EncodeStreaming(ew, node, encFn); err != nil {
+		return err
+	}
+
+	// not all encoders report the errors of the writer
+	return ew.Err()
 }
 
 // ToDagCbor marshals the Tokener to the DAG-CBOR format.
